@@ -296,6 +296,15 @@ func (c *CreateAndBroadcastOpeningTransaction) Execute(services *SwapServices, s
 		blindingKeyHex = hex.EncodeToString(blindingKey.Serialize())
 	}
 
+	// Look up the starting block height before anything is broadcast: once the
+	// wallet has broadcast the opening transaction no fallible call may stand
+	// between the broadcast and the swap's record of it (a failure there would
+	// cancel the swap with the funds locked and no record of the output).
+	startingHeight, err := txWatcher.GetBlockHeight()
+	if err != nil {
+		return swap.HandleError(err)
+	}
+
 	// Create the opening transaction
 	txHex, address, txId, _, vout, err := wallet.CreateOpeningTransaction(&OpeningParams{
 		TakerPubkey:      swap.GetTakerPubkey(),
@@ -313,10 +322,6 @@ func (c *CreateAndBroadcastOpeningTransaction) Execute(services *SwapServices, s
 	if err != nil {
 		log.Infof("Error labeling transaction. txid: %s, label: %s, error: %v",
 			txId, labels.Opening(swap.GetId().Short()), err)
-	}
-	startingHeight, err := txWatcher.GetBlockHeight()
-	if err != nil {
-		return swap.HandleError(err)
 	}
 	swap.StartingBlockHeight = startingHeight
 	if swap.GetChain() == l_btc_chain && swap.GetProtocolVersion() == PEERSWAP_PROTOCOL_VERSION {
